@@ -36,6 +36,9 @@ CHECKS = {
  "C11": ("exploration", "multi-peer simulations on one listener socket with per-peer content streams (cross-delivery visible), Accept-multiset oracle over the recorded history, before/after snapshots around injected foreign/stale datagrams",
    "Held on the multi-peer histories produced (about 2000 accepts and 500 judged injections per quick run).",
    "content streams are keyed per peer; stale first-datagram histories excluded (see assumptions)", "DESIGN.md §3 C11"),
+ "C19": ("exploration", "exactly-once-or-absent / no-cross-delivery history oracle over keyed out-of-band payloads (sent book vs handler invocations), with the C01 content oracle and the wire decoder's FEC group check running on the same traffic",
+   "Held on ~10^5 out-of-band sends and ~5*10^4 checked deliveries per quick run, across ciphers, FEC ratios, session counts and loss profiles.",
+   "payloads shorter than 12 bytes are identified by (session, direction, length) only", "DESIGN.md §3 C19"),
  "C13": ("exploration", "virtual-time trace monitor: return time and error class of every blocked caller recorded at the API boundary and compared with a reference model of deadline/data/close/error semantics at bubble quiescence after each scripted stimulus",
    "Thousands of scripted interleavings of blocked Read/Write/Accept callers with deadline changes, arrivals, Close and socket errors, judged to the exact virtual millisecond; held on the scripts executed.",
    "synctest virtual time; Go scheduler order inside one instant", "DESIGN.md §3 C13"),
